@@ -69,6 +69,7 @@ func runC09(c *core.Ctx) {
 	c09Sentinel(c, rs)
 	c09Union(c)
 	c09Unlimited(c)
+	iteratorsAreRerunnable(c, "C09.R6")
 }
 
 func strConstCmp(cd facts.Cond, fld string, want string) (eq bool, ok bool) {
